@@ -49,6 +49,10 @@ func runC06(p *Program, e *Engine, r *Result, tier string) {
 	c06Writers(a)
 	// (5) the reader can always reach its deferred close: its blocking channel operations are released by close(done)
 	c05R2(a, "C06.5", a.Ro.Readers)
+	// (6) "both channels are closed promptly": the first closer must get through the bookkeeping mutex to reach
+	// close(done); a send parked while that mutex is held (nobody reading Errors or Events) keeps Close out for ever,
+	// so done is never closed and neither are the channels. Shared with C05.R1.
+	c05R1(a, "C06.6")
 }
 
 func chanKind(ro *Roles, t types.Type) string {
